@@ -9662,13 +9662,20 @@ def _write_node(node, xml_tree=None, viewport_transform=None):
         if node.ry is not None:
             xml_tree.set(SVG_ATTR_RADIUS_Y, str(node.ry))
     elif isinstance(node, Circle):
-        xml_tree = subxml(xml_tree, SVG_TAG_CIRCLE)
+        if node.rx == node.ry:
+            xml_tree = subxml(xml_tree, SVG_TAG_CIRCLE)
+            if node.rx is not None:
+                xml_tree.set(SVG_ATTR_RADIUS, str(node.rx))
+        else:
+            # The radii differ (a non-uniform scale was reified): only an ellipse holds both.
+            xml_tree = subxml(xml_tree, SVG_TAG_ELLIPSE)
+            xml_tree.attrib.pop(SVG_ATTR_RADIUS, None)
+            xml_tree.set(SVG_ATTR_RADIUS_X, str(node.rx))
+            xml_tree.set(SVG_ATTR_RADIUS_Y, str(node.ry))
         if node.cx is not None:
             xml_tree.set(SVG_ATTR_CENTER_X, str(node.cx))
         if node.cy is not None:
             xml_tree.set(SVG_ATTR_CENTER_Y, str(node.cy))
-        if node.rx is not None:
-            xml_tree.set(SVG_ATTR_RADIUS, str(node.rx))
     elif isinstance(node, Image):
         xml_tree = subxml(xml_tree, SVG_TAG_IMAGE)
         from base64 import b64encode
